@@ -665,7 +665,11 @@ def mon_c18(t: Trace) -> list[tuple[str, str]]:
     for k in range(1, len(t.lines)):
         m = t.op_msg[k - 1]
         rid = t.ops[k - 1][1:]
-        if m and m.startswith(f"SG.{tgt}.") and t.ops[k - 1][0] in "dx" and rid not in handled:
+        if t.ops[k - 1][0] == "k":
+            rid, ncommits = rid.split(".")
+            if ncommits == "0":
+                continue       # the worker died before the handler's (single) commit: the signal was not handled, the row comes back
+        if m and m.startswith(f"SG.{tgt}.") and t.ops[k - 1][0] in "dxk" and rid not in handled:
             handled.add(rid)      # the first delivery runs the handler (its commit carries the mark); later ones are duplicates
             pre = parse_line(t.lines[k - 1])
             persistent = m.endswith(".1")
@@ -681,6 +685,9 @@ def mon_c18(t: Trace) -> list[tuple[str, str]]:
                          f"workflow became {b['wf']} by {t.op_msg[k - 1]} while stage {tgt} was SUSPENDED waiting for a signal"))
             return hits
     execs = sum(1 for s_, tt, n, _ in t.ledger if s_ == tgt and tt == t.meta.get("signal_task", 0))
+    # an execution whose worker died before anything was committed left no trace in the engine and is repeated
+    execs -= sum(1 for j, o in enumerate(t.ops) if o[0] == "k" and o.endswith(".0") and t.ledger_len[j + 1] > t.ledger_len[j]
+                 and (t.op_msg[j] or "") == f"RT.{tgt}.{t.meta.get('signal_task', 0)}")
     if st["status"] in ("NOT_STARTED",):
         return hits
     if effective >= suspends:
@@ -1077,8 +1084,8 @@ def produce_c18(rng: random.Random, wd: Path, tier: str) -> list[dict]:
     stages[tgt].tasks[ti] = ["U"] * k + ["S"]
     spec = Spec(stages)
     r = Runner(spec, wd)
-    mode = rng.choice(["fifo", "rand", "dup"])
-    nsig = rng.choice([0, 1, 1, 2, 3])
+    mode = rng.choice(["fifo", "rand", "dup", "crash"])
+    nsig = rng.choice([0, 1, 1, 2, 3]) if mode != "crash" else rng.choice([1, 1, 2, 3])
     sig_at = sorted(rng.randint(0, 30) for _ in range(nsig))
     step = 0
     for _ in range(200):
@@ -1091,9 +1098,15 @@ def produce_c18(rng: random.Random, wd: Path, tier: str) -> list[dict]:
                 step = sig_at[0]
                 continue
             break
-        rid = p[0][0] if mode == "fifo" else rng.choice(p)[0]
+        rid, code = (p[0][0], p[0][1]) if mode in ("fifo", "crash") else (lambda x: (x[0], x[1]))(rng.choice(p))
         if mode == "dup" and rng.random() < 0.15:
             r.apply(("x", rid))
+        elif mode == "crash" and (code.startswith("SG.") or code.startswith(f"RT.{tgt}.")) and rng.random() < 0.5:
+            # every crash point of the suspend / resume steps: the worker dies before or after the handler's commit,
+            # a fresh worker runs its recovery sweep, the dead worker's lock lapses (before or after a few more deliveries)
+            r.apply(("k", rid, rng.choice([0, 1, 1, 2])))
+            r.apply(("w",))
+            hold_then_expire(r, rng.choice([0, 0, 1, 2]))
         else:
             r.apply(("d", rid))
         step += 1
